@@ -280,6 +280,10 @@ HandleUpsert(s0, c0, r) ==
        ELSE IF "F5" \notin Dev /\ ~(s.map[r.k].p /\ s.map[r.k].i = i)
        THEN \* the entry left the map before it was admitted: nothing to do
             <<s, c>>
+       ELSE IF "F12" \notin Dev /\ (ExpWoI(s, s.info[i]) \/ ExpAoI(s, s.info[i]))
+       THEN \* intended design: a candidate that is dead already (expired, or written before an
+            \* invalidate_all) takes no part in a contest and displaces nobody
+            <<EmitMx(IF current THEN MapRemove(s, r.k) ELSE s, [t |-> "upsert.dead", k |-> r.k]), c>>
        ELSE IF FitsC(s, c, r.nw)
        THEN HandleAdmit(EmitMx(s, [t |-> "upsert.fit", k |-> r.k]), c, i, r.nw)
        ELSE IF r.nw > s.cfg.cap
